@@ -471,3 +471,18 @@ def _filter_count(m, args, raw):
             n += 1
         pos += 1
     return n
+
+
+@model("Option::or")
+def _option_or(m, args, raw):
+    return args[0] if args[0].variant == "Some" else args[1]
+
+
+@model("^<[iu](8|16|32|64|128|size) as From(<\\w+>)?>::from$")
+def _int_from_bool(m, args, raw):
+    if "bool" not in raw:
+        return args[0]          # a widening integer conversion
+    v = args[0]
+    if isinstance(v, bool):
+        return int(v)
+    return z3.If(v, z3.IntVal(1), z3.IntVal(0))
